@@ -9,9 +9,11 @@ def odict_values(d): return tuple(d.values())
 def ints(): return list(range(-3, 48)) + list(range(0xff000000 - 2, 0xff000000 + 4))
 def strs(): return ['', 'a', 'wl_surface', 'wl_*', '*', 'xdg_*', 'wl_display', 'x y', '*a*', 'wl_registry', 'wl_callback', 'wl_buffer', '.', 'a.b',
                     'c0', 'c1', 'c2', 'zz', 'extra', 'z', 'PARSED', 'A', 'B']
+SAMPLES = {}
+def objs(name): return list(SAMPLES.get(name, []))
 def implies(a, b): return (not a) or b
 def sext(a, b): return a == b
 def typed(x, t): return x
 def fresh(x): return True
 
-__all__ = ['fieldmap', 'odict_values', 'allocated', 'cast', 'dictview', 'keyset', 'ints', 'strs', 'implies', 'sext', 'typed', 'fresh']
+__all__ = ['objs', 'fieldmap', 'odict_values', 'allocated', 'cast', 'dictview', 'keyset', 'ints', 'strs', 'implies', 'sext', 'typed', 'fresh']
